@@ -176,7 +176,7 @@ def unwrapLines : List (List Char) → Option (List (List Char))
 /-- logical lines of a written text -/
 def logical (t : List Char) : Option (List (List Char)) := unwrapLines (physLines t)
 
-def endsWithEq (pl : List Char) : Bool := [' ', '='].isSuffixOf pl
+def endsWithEq (pl : List Char) : Bool := pl.reverse.take 2 == ['=', ' ']
 
 def startsBlank (pl : List Char) : Bool := pl.head? == some ' '
 
